@@ -284,7 +284,10 @@ def constructors_unit(plan):
     """MechSet::from_vec and MechSet::from_set (src/core/src/structures/set.rs), whole bodies verbatim except: `for v in vec {` ->
     `for i_ in 0..vec.len() { let v = vec_take(&vec, i_);` (consuming iteration); `MechSet{ kind, num_elements: .., set}` kept.
     ConvertMatToSet::solve (src/interpreter/src/stdlib/convert/scalar.rs): its last statement `*self.out.borrow_mut() = MechSet::from_vec(converted_values);`
-    as `*out = MechSet::from_vec(converted_values);` over the converted element list (the element conversion itself is C12's subject)."""
+    whole: `matrix_to_values(&self.arg).unwrap_or_default()` -> `matrix_values_or_empty(arg)`, the element loop
+    `xs.into_iter().map(|value| { value.convert_to(&self.target_kind).unwrap_or_else(|| panic!(..)) }).collect::<Vec<_>>()` -> `convert_each(xs, target_kind)?` (a named stand-in:
+    ALL elements, in order, a missing conversion = failure), `*self.out.borrow_mut() =` -> `*out =`; the arm of impl_conversion_fxn for a set target kind likewise
+    (`.map(|value| value.convert_to(target_kind)).collect::<Option<Vec<_>>>()` -> `convert_each(..)`, the boxed ConvertMatToSet -> a record holding `out`)."""
     from vlib import read_repo, extract_fn, VerusUnit, AnchorLost, find_code
     text = read_repo("src/core/src/structures/set.rs")
     items, fns = [SET_PRELUDE, CTOR_MODEL], {}
@@ -315,29 +318,95 @@ def constructors_unit(plan):
         fns["from_set"] = n2
     except AnchorLost as e:
         plan.anchor_errors.append((n2, str(e)))
-    # ConvertMatToSet::solve: the statement that stores the result
+    # ConvertMatToSet::solve (whole) and the arm of impl_conversion_fxn that builds it
+    items.append(CONV_SET_MODEL)
     n3 = "C14.constructor.ConvertMatToSet.solve"
-    plan.ob(n3, "verus", "proved", functions=["src/interpreter/src/stdlib/convert/scalar.rs: ConvertMatToSet::solve (the statement that builds the set)"],
-            what="converting a matrix to a set stores a set that holds exactly the distinct converted elements, with reported size == number of elements")
+    plan.ob(n3, "verus", "proved", functions=["src/interpreter/src/stdlib/convert/scalar.rs: ConvertMatToSet::solve (whole body)"],
+            what="converting a matrix to a set converts EVERY element (an element with no conversion is a panic = error, never skipped) and stores the set of exactly the distinct converted elements, with reported size == number of elements")
+    ctext = re.sub(r"//[^\n]*", "", read_repo("src/interpreter/src/stdlib/convert/scalar.rs")).replace("\r", "")
     try:
-        ctext = read_repo("src/interpreter/src/stdlib/convert/scalar.rs")
         m = find_code(ctext, r"impl\s+MechFunctionImpl\s+for\s+ConvertMatToSet\s*\{")
         if not m:
             raise AnchorLost("impl MechFunctionImpl for ConvertMatToSet not found")
         sig, body = extract_fn(ctext[m.start():vlib.match_brace(ctext, m.end() - 1)], "solve")
-        st = [vlib.strip_lead(x) for x in vlib.split_statements(body)]
-        last = st[-1].strip()
-        mm = re.fullmatch(r"\*self\.out\.borrow_mut\(\)\s*=\s*(.+);", last, re.S)
-        if not mm or "converted_values" not in " ".join(st[:-1]):
-            raise AnchorLost("ConvertMatToSet::solve: the last statement is no longer `*self.out.borrow_mut() = ..;` over `converted_values`")
-        items.append("fn convert_mat_to_set_store(out: &mut MechSet, converted_values: Vec<Value>)\n  ensures final(out).set.view() == ids(converted_values@), final(out).set.view().finite(), final(out).num_elements == final(out).set.view().len(),\n    one_kind(ids(converted_values@)) ==> final(out).wf(),\n{\n  *out = %s;\n}\n" % mm.group(1))
-        fns["convert_mat_to_set_store"] = n3
+        bb = body.strip()[1:-1]
+        bb, k1 = re.subn(r"matrix_to_values\(\s*&self\.arg\s*\)\s*\.unwrap_or_default\(\)", "matrix_values_or_empty(arg)", bb)
+        bb, k2 = re.subn(r"(\w+)\s*\.into_iter\(\)\s*\.map\(\s*\|value\|\s*\{\s*value\s*\.convert_to\(\s*&self\.target_kind\s*\)\s*\.unwrap_or_else\(\s*\|\|\s*panic!\([^;]*?\)\s*\)\s*\}\s*\)\s*\.collect::<Vec<_>>\(\)",
+                         r"convert_each(\1, target_kind)?", bb)
+        bb, k2b = re.subn(FILTER_MAP_RX % r"&self\.target_kind", r"convert_present(\1, target_kind)", bb)       # std filter_map: the elements that have a conversion, in order
+        k2 += k2b
+        bb, k3 = re.subn(r"\*self\.out\.borrow_mut\(\)\s*=", "*out =", bb)
+        if (k1, k2, k3) != (1, 1, 1) or re.search(r"\b(self|iter|into_iter|map|filter|filter_map|collect)\b", bb):
+            raise AnchorLost("ConvertMatToSet::solve: the body is outside the transcription rules %r" % ((k1, k2, k3),))
+        items.append("fn convert_mat_to_set_solve(arg: &MatArg, target_kind: &TargetKind, out: &mut MechSet) -> (res: Option<()>)\n"
+                     "  ensures (match conv_all(mvals(*arg), *target_kind) {\n"
+                     "      Some(cs) => res is Some && final(out).set.view() == ids(cs) && final(out).set.view().finite() && final(out).num_elements == final(out).set.view().len() && (one_kind(ids(cs)) ==> final(out).wf()),\n"
+                     "      None => res is None }),\n{\n" + bb + "\n  Some(())\n}\n")
+        fns["convert_mat_to_set_solve"] = n3
     except AnchorLost as e:
         plan.anchor_errors.append((n3, str(e)))
+    n4 = "C14.constructor.impl_conversion_fxn.matrix_to_set_arm"
+    plan.ob(n4, "verus", "proved", functions=["src/interpreter/src/stdlib/convert/scalar.rs: impl_conversion_fxn (the arm for a set target kind)"],
+            what="a matrix annotated with a set kind becomes the set of ALL its converted elements when every element has a conversion; when some element has none this arm builds nothing (the annotation is an error further down), it never drops the element")
+    try:
+        m = find_code(ctext, r"\(\s*source\s*,\s*Value::Kind\(\s*ValueKind::Set\(\s*target_kind\s*,\s*_\s*\)\s*\)\s*\)\s*=>\s*\{")
+        if not m:
+            raise AnchorLost("impl_conversion_fxn: the arm `(source, Value::Kind(ValueKind::Set(target_kind, _)))` not found")
+        arm = ctext[m.end():vlib.match_brace(ctext, m.end() - 1) - 1]
+        arm, k1 = re.subn(r"(\w+)\s*\.into_iter\(\)\s*\.map\(\s*\|value\|\s*value\.convert_to\(\s*target_kind\s*\)\s*\)\s*\.collect::<Option<Vec<_>>>\(\)", r"convert_each(\1, target_kind)", arm)
+        arm, k1b = re.subn(FILTER_MAP_RX % "target_kind", r"convert_present(\1, target_kind)", arm)
+        k1 += k1b
+        arm, k2 = re.subn(r"return\s+Ok\(\s*Box::new\(\s*ConvertMatToSet\s*\{\s*arg\s*:\s*source_value\.clone\(\)\s*,\s*target_kind\s*:\s*target_kind\.as_ref\(\)\.clone\(\)\s*,\s*out\s*:\s*Ref::new\(", "return Some(ConvertMatToSetM { out: (", arm)
+        arm, k3 = re.subn(r"\)\s*,\s*\}\s*\)\s*\)\s*;", ") });", arm)
+        if (k1, k2, k3) != (1, 1, 1) or re.search(r"\b(iter|into_iter|map|filter|filter_map|collect|Box|Ref)\b", arm):
+            raise AnchorLost("impl_conversion_fxn: the set arm is outside the transcription rules %r" % ((k1, k2, k3),))
+        items.append("fn matrix_to_set_arm(source: &MatArg, target_kind: &TargetKind) -> (res: Option<ConvertMatToSetM>)\n"
+                     "  ensures (match mvals_opt(*source) {\n"
+                     "      Some(vs) => match conv_all(vs, *target_kind) {\n"
+                     "          Some(cs) => res matches Some(f) && f.out.set.view() == ids(cs) && f.out.num_elements == f.out.set.view().len(),\n"
+                     "          None => res is None },\n"
+                     "      None => res is None }),\n{\n" + arm + "\n  None\n}\n")
+        fns["matrix_to_set_arm"] = n4
+    except AnchorLost as e:
+        plan.anchor_errors.append((n4, str(e)))
     if fns:
         items.append(vlib.verus_canary("canary_ctor", "x: u64", []))
         plan.verus.append(VerusUnit("c14_constructors", vlib.verus_file(items), fns, ["canary_ctor"]))
         plan.dropped.append(constructors_unit.__doc__.strip())
+
+
+FILTER_MAP_RX = r"(\w+)\s*\.into_iter\(\)\s*\.filter_map\(\s*\|value\|\s*value\.convert_to\(\s*%s\s*\)\s*\)\s*\.collect::<Vec<_>>\(\)"
+CONV_SET_MODEL = """
+// std's filter_map over the same closure: only the elements that HAVE a conversion, in order (not what the code uses; named so that such a rewrite is judged, not lost)
+pub open spec fn conv_some(s: Seq<Value>, k: TargetKind) -> Seq<Value> decreases s.len() {
+  if s.len() == 0 { Seq::empty() } else { match conv(s.last(), k) { Some(c) => conv_some(s.drop_last(), k).push(c), None => conv_some(s.drop_last(), k) } }
+}
+#[verifier::external_body]
+pub fn convert_present(values: Vec<Value>, k: &TargetKind) -> (r: Vec<Value>) ensures r@ == conv_some(values@, *k), { unimplemented!() }
+
+// matrix -> set conversion: the source matrix and the target kind are opaque; `conv(element, kind)` is Value::convert_to (None = no conversion)
+pub struct MatArg { pub id: int }
+pub struct TargetKind { pub id: int }
+pub struct ConvertMatToSetM { pub out: MechSet }
+pub uninterp spec fn mvals_opt(a: MatArg) -> Option<Seq<Value>>;                   // matrix_to_values (None = not a matrix)
+pub open spec fn mvals(a: MatArg) -> Seq<Value> { match mvals_opt(a) { Some(s) => s, None => Seq::empty() } }     // .unwrap_or_default()
+pub uninterp spec fn conv(v: Value, k: TargetKind) -> Option<Value>;
+// every element converted, in order; None as soon as one element has no conversion
+pub open spec fn conv_all(s: Seq<Value>, k: TargetKind) -> Option<Seq<Value>> decreases s.len() {
+  if s.len() == 0 { Some(Seq::empty()) } else {
+    match (conv_all(s.drop_last(), k), conv(s.last(), k)) { (Some(cs), Some(c)) => Some(cs.push(c)), _ => None }
+  }
+}
+#[verifier::external_body]
+pub fn matrix_values_or_empty(a: &MatArg) -> (r: Vec<Value>) ensures r@ == mvals(*a), { unimplemented!() }
+#[verifier::external_body]
+pub fn matrix_to_values(a: &MatArg) -> (r: Option<Vec<Value>>) ensures (match r { Some(v) => mvals_opt(*a) == Some(v@), None => mvals_opt(*a) is None }), { unimplemented!() }
+// `xs.into_iter().map(|value| value.convert_to(kind) ..).collect()`: ALL elements, in order (the panic / the Option-collect make a missing conversion a failure)
+#[verifier::external_body]
+pub fn convert_each(values: Vec<Value>, k: &TargetKind) -> (r: Option<Vec<Value>>)
+  ensures (match r { Some(v) => conv_all(values@, *k) == Some(v@), None => conv_all(values@, *k) is None }),
+{ unimplemented!() }
+"""
 
 
 COMP_MODEL = """
